@@ -159,6 +159,26 @@ func corpus1(w *world, o *hx.Out, k int) {
 		nested: &call{kind: kVote, src: wl, pub: cx.PublicKey()}}))
 	s.block()
 	s.block(s.tx([]util.Uint160{u(1)}, &call{kind: kTransfer, neo: true, src: wl, dst: u(1), amt: big64(1_000_006), via: &wl}))
+	// a voting account's balance goes to exactly zero and back: in one transfer, split over two transfers of one
+	// transaction, split over two transactions of one block; each time the votes must leave the candidate and the
+	// voters count, and come back with the NEO and a new vote
+	neoOf := func(h util.Uint160) *big.Int {
+		if a := w.dump().neo[h]; a != nil {
+			return new(big.Int).Set(a.bal)
+		}
+		return new(big.Int)
+	}
+	all := neoOf(u(0))
+	s.block(s.tx([]util.Uint160{u(0)}, xferNeo(u(0), u(2), all)))
+	s.block(s.tx([]util.Uint160{u(2)}, xferNeo(u(2), u(0), all)), s.tx([]util.Uint160{u(0)}, vote(u(0), cx.PublicKey())))
+	third := new(big.Int).Div(all, big64(3))
+	rest := new(big.Int).Sub(all, third)
+	s.block(s.tx([]util.Uint160{u(0), u(2)}, xferNeo(u(0), u(2), third), xferNeo(u(0), u(2), rest),
+		xferNeo(u(2), u(0), all), vote(u(0), cx.PublicKey())))
+	s.block(s.tx([]util.Uint160{u(0)}, xferNeo(u(0), u(2), third)), s.tx([]util.Uint160{u(0)}, xferNeo(u(0), u(2), rest)))
+	s.block(s.tx([]util.Uint160{u(2)}, xferNeo(u(2), u(0), all)))
+	s.block(s.tx([]util.Uint160{u(0)}, vote(u(0), cx.PublicKey())))
+	o.Count("corpus:voter-emptied-and-refilled")
 }
 
 // corpus2: the boundaries of the election. Committee of 3 (standby = candidates 0..2), 2 validators, two extra
